@@ -543,6 +543,7 @@ Arguments LSNone {CV E}.
 Section ObjCache.
   Variable data : list Z.               (* what the file / the parent holds *)
   Variable ro : bool.                   (* the cached array is read-only *)
+  Variable nat_dt : Z.                  (* dtype of the data: 2 int64, 3 float64 *)
   Variable reuse : bool.                (* false: BasinProxyFeature.__array__, which
                                            uses its cache on the first call only and
                                            assembles a new array on every later call *)
@@ -558,14 +559,28 @@ Section ObjCache.
 
   Definition o_init : ostate := {| o_array := None; o_heap := []; o_outs := [] |}.
 
+  (* dtype codes: 0 = not given, 1 float32, 2 int64, 3 float64. Values are
+     scaled by 8 (the generators emit multiples of 1/8 below 2^20, exactly
+     representable as float32); conversion to int64 truncates towards zero *)
   Inductive rd :=
   | RdAll                               (* obj[:], np.asarray(obj), obj.__array__() *)
   | RdSlice (lo hi : Z)                 (* obj[lo:hi], 0 <= lo, 0 <= hi: a view *)
   | RdFancy (idx : list Z)              (* obj[[i, j, ...]]: a copy *)
-  | RdCopy.                             (* np.array(obj, copy=True) *)
+  | RdCopy                              (* np.array(obj, copy=True) *)
+  | RdConv (d cp : Z)                   (* np.array(obj, dtype=d, copy=None|True) *)
+  | RdItem (i : Z)                      (* obj[i] *)
+  | RdNop.                              (* requests that are not modelled *)
+
+  Definition target (d : Z) : Z := if d =? 0 then nat_dt else d.
+
+  Definition conv (t : Z) (l : list Z) : list Z :=
+    if t =? 2 then map (fun v => Z.quot v 8 * 8) l else l.
+
+  Definition rd_dt (r : rd) : Z :=
+    match r with RdConv d _ => target d | _ => nat_dt end.
 
   Inductive oop := ORead (r : rd) | OMut (j : nat) (delta : Z).
-  Inductive oout := OVal (v : option (list Z)) | OMutR (ok : bool).
+  Inductive oout := OVal (dt : Z) (v : option (list Z)) | ONone | OMutR (ok : bool).
 
   Fixpoint seq_from (a : nat) (n : nat) : list nat :=
     match n with O => [] | S n' => a :: seq_from (S a) n' end.
@@ -607,25 +622,44 @@ Section ObjCache.
     let hi' := Z.to_nat (Z.min hi (Z.of_nat n)) in
     seq_from lo' (hi' - lo').
 
+  (* requests answered with a view of the array that __array__ returns:
+     the selected positions *)
+  Definition rd_view (r : rd) : option (list nat) :=
+    let n := length data in
+    match r with
+    | RdAll => Some (seq_from O n)
+    | RdSlice lo hi => Some (slice_pos n lo hi)
+    | RdConv d cp => if (target d =? nat_dt) && (cp =? 0) then Some (seq_from O n) else None
+    | _ => None
+    end.
+
+  (* requests answered with a new array: its content *)
+  Definition rd_fresh (r : rd) : option (list Z) :=
+    match r with
+    | RdFancy idx => select data (map Z.to_nat idx)
+    | RdCopy => Some data
+    | RdConv d cp => Some (conv (target d) data)
+    | RdItem i => match nth_error data (Z.to_nat i) with Some x => Some [x] | None => None end
+    | _ => None
+    end.
+
   Definition ostep (s : ostate) (o : oop) : ostate * oout :=
     match o with
+    | ORead RdNop => (s, ONone)
     | ORead r =>
         let '(h0, a, b) := ensure s in
-        let n := length data in
         let '(h1, v) :=
-          match r with
-          | RdAll => (h0, (b, seq_from O n))
-          | RdSlice lo hi => (h0, (b, slice_pos n lo hi))
-          | RdFancy idx =>
-              match select data (map Z.to_nat idx) with
+          match rd_view r with
+          | Some pos => (h0, (b, pos))
+          | None =>
+              match rd_fresh r with
               | Some l => let '(h, c) := halloc h0 l true in
                           (h, (c, seq_from O (length l)))
               | None => (h0, (b, []))
               end
-          | RdCopy => let '(h, c) := halloc h0 data true in (h, (c, seq_from O n))
           end in
         ({| o_array := Some a; o_heap := h1; o_outs := o_outs s ++ [v] |},
-         OVal (view_value h1 v))
+         OVal (rd_dt r) (view_value h1 v))
     | OMut j delta =>
         match nth_error (o_outs s) j with
         | Some v =>
@@ -644,19 +678,21 @@ Section ObjCache.
         (s2, r :: rs)
     end.
 
-  (* specification: the stored data, sliced *)
-  Definition ospec (o : oop) : option (option (list Z)) :=
+  (* specification: what the request denotes on the stored data, and its dtype *)
+  Definition ospec (o : oop) : option (Z * option (list Z)) :=
     match o with
-    | ORead RdAll => Some (Some data)
-    | ORead (RdSlice lo hi) => Some (select data (slice_pos (length data) lo hi))
-    | ORead (RdFancy idx) =>
-        Some (match select data (map Z.to_nat idx) with Some l => Some l | None => Some [] end)
-    | ORead RdCopy => Some (Some data)
+    | ORead RdNop => None
+    | ORead r =>
+        Some (rd_dt r,
+              match rd_view r with
+              | Some pos => select data pos
+              | None => match rd_fresh r with Some l => Some l | None => Some [] end
+              end)
     | OMut _ _ => None
     end.
 
-  Definition oobs (o : oout) : option (option (list Z)) :=
-    match o with OVal v => Some v | OMutR _ => None end.
+  Definition oobs (o : oout) : option (Z * option (list Z)) :=
+    match o with OVal dt v => Some (dt, v) | ONone => None | OMutR _ => None end.
 End ObjCache.
 
 (* ====================================================================== *)
@@ -799,21 +835,23 @@ Definition dec_oop (t : Z * Z * Z * Z * list Z) : oop :=
   let '(tag, a, b, c, idx) := t in
   if tag =? 0 then
     ORead (if a =? 0 then RdAll else if a =? 1 then RdSlice b c
-           else if a =? 2 then RdFancy idx else RdCopy)
+           else if a =? 2 then RdFancy idx else if a =? 3 then RdCopy
+           else if a =? 4 then RdConv b c else if a =? 5 then RdItem b else RdNop)
   else OMut (Z.to_nat a) b.
 
 Definition enc_oout (o : oout) : list Z :=
   match o with
-  | OVal (Some l) => 0 :: Z.of_nat (length l) :: l
-  | OVal None => [7]
+  | OVal dt (Some l) => 0 :: dt :: Z.of_nat (length l) :: l
+  | OVal _ None => [7]
+  | ONone => []
   | OMutR ok => [5; if ok then 1 else 0]
   end.
 
-(* case = (ro, reuse, data, ops) *)
-Definition obj_flat (case : Z * Z * list Z * list (Z * Z * Z * Z * list Z)) : list Z :=
-  let '(ro, reuse, data, ops) := case in
+(* case = (ro, reuse, native dtype, data, ops) *)
+Definition obj_flat (case : Z * Z * Z * list Z * list (Z * Z * Z * Z * list Z)) : list Z :=
+  let '(ro, reuse, nat_dt, data, ops) := case in
   flat_map enc_oout
-    (snd (orun data (negb (ro =? 0)) (negb (reuse =? 0)) o_init (map dec_oop ops))).
+    (snd (orun data (negb (ro =? 0)) nat_dt (negb (reuse =? 0)) o_init (map dec_oop ops))).
 
 (* ====================================================================== *)
 (* Part G: util.obj2bytes / hashobj (ancillary-feature hashes, hierarchy   *)
